@@ -62,8 +62,12 @@ pub fn scratch_dir(name: &str) -> PathBuf {
 }
 
 pub fn start_server_with(ca: &Path, cert: &Path, key: &Path) -> Result<SocketAddr> {
+    start_server_on("127.0.0.1:0", ca, cert, key)
+}
+
+pub fn start_server_on(bind: &str, ca: &Path, cert: &Path, key: &Path) -> Result<SocketAddr> {
     let args = UserArgs::parse_from([
-        "selium-server", "--bind-addr", "127.0.0.1:0",
+        "selium-server", "--bind-addr", bind,
         "--cert", cert.to_str().unwrap(), "--key", key.to_str().unwrap(), "--ca", ca.to_str().unwrap(),
     ]);
     let server = Server::try_from(args)?;
